@@ -252,6 +252,13 @@ def c11(cx):
 def c17(cx):
     cx.assumptions += ["signatures abstract (ground truth from the harness's signing record)"]
     q = cx.tier == QUICK
+    cx.mc("MC_ClientSrv", "MC_ClientSrv.cfg", {"CDefects": "{}", "MaxRounds": 2 if q else 3, "Conc": 2},
+          note="two overlapping rounds: a reply verified against a GCA key that is no longer current is discarded; "
+               "MigrateOnlyIfDoublySigned / ListOnlyBySignature refer to the CURRENT GCA")
+    ok, _ = cx.mc("MC_ClientSrv", "MC_ClientSrv.cfg", {"CDefects": '{"stalegca"}', "MaxRounds": 2, "Conc": 2}, expect_ok=False,
+                  note="non-vacuity: applying the reply of a round that began under the former GCA (deviation stalegca, the code before a2650bd) is refuted")
+    if ok:
+        raise __import__("core").Broken("MC_ClientSrv no longer refutes the deviation 'stalegca'")
     cx.mc("MC_ClientSrv", "MC_ClientSrv.cfg", {"CDefects": "{}", "MaxRounds": 2 if q else 4, "Conc": 1},
           note="MigrateOnlyIfDoublySigned, ListOnlyBySignature asserted at every applied reply; EntryFrozenUnlessBan, BannedMonotone "
                "(memory and disk), PersistEqualsAdopted")
